@@ -17,6 +17,9 @@ type View interface{}
 type vBase struct {
 	fn string
 	ub string // every ref stored in this heap is < ub
+	// keep: objects whose address never escapes the function keep their contents (prev) across a havoc by
+	// unknown code
+	keep View
 }
 type vStore struct {
 	prev View
@@ -80,6 +83,7 @@ type State struct {
 	touchesAll bool // loop contains calls/allocations: other heaps havoc >= entry nxt
 	nxt        string
 	memo       map[string]View
+	ver        int // heap version: changes with every write or havoc, not with allocation
 }
 
 type heapSig struct {
@@ -92,6 +96,8 @@ func (e *Enc) newState(k stKind, prev *State) *State {
 	if prev != nil {
 		s.nxt = prev.nxt
 	}
+	e.verCtr++
+	s.ver = e.verCtr
 	return s
 }
 
@@ -143,7 +149,7 @@ func (e *Enc) view(s *State, heap string) View {
 		if s.heap == heap || s.heap == "*" {
 			fn := fmt.Sprintf("HH%d_%s", s.id, heap)
 			e.declHeapFn(fn, heap)
-			v = &vBase{fn: fn, ub: s.nxt}
+			v = &vBase{fn: fn, ub: s.nxt, keep: p}
 		} else {
 			v = p
 		}
@@ -154,6 +160,9 @@ func (e *Enc) view(s *State, heap string) View {
 		case s.full[heap] || s.full["*"]:
 			e.declHeapFn(fn, heap)
 			v = &vBase{fn: fn, ub: s.nxt}
+			if !s.stored[heap] {
+				v.(*vBase).keep = p // unknown code in the loop cannot reach private objects
+			}
 		case s.stored[heap]:
 			e.declHeapFn(fn, heap)
 			v = &vMerge{prev: p, fn: fn, bound: s.a0, ub: s.nxt}
@@ -224,6 +233,10 @@ func (e *Enc) sel(v View, heap string, loc Loc) string {
 	var out string
 	switch x := v.(type) {
 	case *vBase:
+		if x.keep != nil && e.privateRefs[loc[0]] {
+			out = e.sel(x.keep, heap, loc)
+			break
+		}
 		out = "(" + x.fn + " " + strings.Join(loc, " ") + ")"
 		e.refBound(heap, out, x.ub)
 	case *vStore:
